@@ -121,7 +121,7 @@ func jobReorg(r *ev.Run) {
 			}
 		}()
 	}
-	for _, inner := range []int{0, 1} {
+	for _, inner := range []int{0, 1, 2, 3, 4, 5} {
 		func() {
 			defer func() {
 				if p := recover(); p != nil {
@@ -223,20 +223,42 @@ func reorgScenario(r *ev.Run, ri int, ops []string) (string, string, error) {
 	return "", "", nil
 }
 
-// lostAuthorityScenario: A is owned through B (rule #9: B alone, rule #3: k1 half + B half).
+// lostAuthorityScenario: a pending operation P on account A is authorised when it is admitted; a
+// block (of a peer, or the node's own, packed before P arrived) then confirms Q, which takes that
+// authority away WITHOUT any read / write conflict with P:
+//
+//	variants 0,1 (x peer/own): A is owned through B (rule #9: B alone, rule #3: k1 half + B half),
+//	             P = change of A's rule signed by B's members, Q = B handed to k6;
+//	variant  2   (x peer/own): rule #0 (k1 alone), P = spend of A's funds signed A/k1 (a transfer has
+//	             no read set at all), Q = A handed to k6.
+//
+// Then the node's REAL miner packs its pool. If the block it confirms holds P, an operation guarded
+// by A's rule took effect without satisfying the rule in force on the confirmed chain.
 func lostAuthorityScenario(r *ev.Run, variant int) (string, string, error) {
-	ri := []int{9, 3}[variant]
+	kind := variant % 3
+	ownBlock := variant >= 3
+	ri := []int{9, 3, 0}[kind]
 	b, err := newWorld(ri)
 	if err != nil {
 		return "", "", err
 	}
 	defer b.n.Drop()
-	// pending: A -> k6 alone, authorised through B's members k3 + k4 (and k1 for rule #3)
-	auth := []entry{b.ent(cNested, 2, false, b.A, b.B, b.k[2]), b.ent(cNested, 3, false, b.A, b.B, b.k[3])}
-	if ri == 3 {
-		auth = append(auth, b.ent(cDirect, 0, false, b.A, b.k[0]))
+	handOver := thr(1000, int64(b.k[5]), 1000)
+	var auth, qAuth []entry
+	pOp, qAcct := opSetAccountAcl, b.B
+	switch kind {
+	case 0, 1:
+		auth = []entry{b.ent(cNested, 2, false, b.A, b.B, b.k[2]), b.ent(cNested, 3, false, b.A, b.B, b.k[3])}
+		if ri == 3 {
+			auth = append(auth, b.ent(cDirect, 0, false, b.A, b.k[0]))
+		}
+		qAuth = []entry{b.ent(cDirect, 2, false, b.B, b.k[2]), b.ent(cDirect, 3, false, b.B, b.k[3])}
+	case 2:
+		pOp, qAcct = opSpend, b.A
+		auth = []entry{b.ent(cDirect, 0, false, b.A, b.k[0])}
+		qAuth = b.fullAuth()
 	}
-	tx, err := b.body(opSetAccountAcl, uris(auth))
+	tx, err := b.body(pOp, uris(auth))
 	if err != nil {
 		return "", "", err
 	}
@@ -244,36 +266,53 @@ func lostAuthorityScenario(r *ev.Run, variant int) (string, string, error) {
 	if err != nil {
 		return "", "", err
 	}
-	if err := b.admit(P, "change of A authorised through B"); err != nil {
-		return "", "", err
+	if !ownBlock {
+		if err := b.admit(P, "operation on A, authorised when admitted"); err != nil {
+			return "", "", err
+		}
 	}
-	// the peer block: B handed to k6 (signed by B's members), never seen by this node's pool
-	bAuth := []entry{b.ent(cDirect, 2, false, b.B, b.k[2]), b.ent(cDirect, 3, false, b.B, b.k[3])}
-	handB := thr(1000, int64(b.k[5]), 1000)
-	tx, err = b.contractTx([]*protos.InvokeRequest{aclReq("SetAccountAcl", map[string][]byte{"account_name": []byte(b.u.list[b.B]),
-		"acl": []byte(handB.JSON(b.u))})}, sn.K(6).Address, uris(bAuth))
+	tx, err = b.contractTx([]*protos.InvokeRequest{aclReq("SetAccountAcl", map[string][]byte{"account_name": []byte(b.u.list[qAcct]),
+		"acl": []byte(handOver.JSON(b.u))})}, sn.K(6).Address, uris(qAuth))
 	if err != nil {
 		return "", "", err
 	}
-	Q, err := b.sign(tx, sn.K(6), "", bAuth)
+	Q, err := b.sign(tx, sn.K(6), "", qAuth)
 	if err != nil {
 		return "", "", err
 	}
 	if ok, verr, _ := b.verify(Q); !ok {
-		return "", "", fmt.Errorf("the peer's change of B does not verify: %v", verr)
+		return "", "", fmt.Errorf("the hand-over does not verify: %v", verr)
 	}
-	blk, err := b.block(b.n.StateTip(), b.height+1, []*pb.Transaction{Q})
-	if err != nil {
-		return "", "", err
-	}
-	if err := b.n.Walk(blk.Blockid, false); err != nil {
-		return "", "", fmt.Errorf("walk to the peer block: %v", err)
+	if ownBlock {
+		// the node admits Q, its miner packs it; while the block is on its way (consensus step) P
+		// arrives and is admitted on the rules still in force; then the block is confirmed
+		if err := b.admit(Q, "hand-over"); err != nil {
+			return "", "", err
+		}
+		b.ts += 10
+		own, err := b.n.PackBlock(sn.K(0), b.ts)
+		if err != nil {
+			return "", "", fmt.Errorf("pack: %v", err)
+		}
+		if err := b.admit(P, "operation on A, authorised when admitted"); err != nil {
+			return "", "", err
+		}
+		if err := b.n.ConfirmForMiner(own); err != nil {
+			return "", "", fmt.Errorf("confirm own block: %v", err)
+		}
+	} else {
+		blk, err := b.block(b.n.StateTip(), b.height+1, []*pb.Transaction{Q})
+		if err != nil {
+			return "", "", err
+		}
+		if err := b.n.Walk(blk.Blockid, false); err != nil {
+			return "", "", fmt.Errorf("walk to the peer block: %v", err)
+		}
 	}
 	b.height++
-	b.w.Rules[b.B] = handB
+	b.w.Rules[qAcct] = handOver
 	r.Count("B.lost-authority.scenarios", 1)
-	r.Case(fmt.Sprintf("B|lost-authority|rule#%d", ri), true)
-	// what the node would pack now
+	r.Case(fmt.Sprintf("B|lost-authority|rule#%d|%s|own-block=%v", ri, pOp, ownBlock), true)
 	var paths [][]int8
 	for _, e := range auth {
 		paths = append(paths, e.Path)
@@ -286,18 +325,23 @@ func lostAuthorityScenario(r *ev.Run, variant int) (string, string, error) {
 		r.Count("B.lost-authority.dropped-from-the-pool", 1)
 	}
 	if still && want == MustReject {
-		aclOf := func() string { a, _ := b.n.Acl.GetAccountACL(acctName(digitsA)); return fmt.Sprint(a) }
-		before := aclOf()
 		// the node's own miner (the real packBlock / confirmBlockForMiner of the engine)
 		b.ts += 10
 		blk, perr := b.n.PackBlock(sn.K(0), b.ts)
 		if perr == nil {
 			perr = b.n.ConfirmForMiner(blk)
 		}
-		if after := aclOf(); perr == nil && after != before {
-			return "tx|rule-changed-without-satisfying-confirmed-rule|pending-change-outlived-its-authority",
-				fmt.Sprintf("rule#%d: a change of A's rule signed by %v was pending when a peer block handed B to k6; the node kept it pending and its next block confirmed it: A's rule went from %s to %s although the signers no longer satisfy the rule in force (%s, B = %s)",
-					ri, b.symAuth(auth), before, after, b.w.Rules[b.A].Describe(func(i int) string { return b.sym[i] }), handB.Describe(func(i int) string { return b.sym[i] })), nil
+		confirmed := false
+		if perr == nil {
+			for _, x := range blk.Transactions {
+				confirmed = confirmed || string(x.Txid) == string(P.Txid)
+			}
+		}
+		if confirmed {
+			by := map[bool]string{true: "authority-removed-by-own-block", false: "authority-removed-by-peer-block"}[ownBlock]
+			return "tx|guarded-operation-confirmed-without-satisfying-confirmed-rule|pending-operation-outlived-its-authority|" + by,
+				fmt.Sprintf("rule#%d: %s on A signed by %v was pending when a block (%s) handed %s to k6 - no read / write conflict with it; the node kept it pending and its miner's next block confirmed it although the signers do not satisfy the rule in force on the confirmed chain (A: %s, %s: %s). Every other node re-verifies the block's transactions and refuses it.",
+					ri, pOp, b.symAuth(auth), by, b.sym[qAcct], b.w.Rules[b.A].Describe(func(i int) string { return b.sym[i] }), b.sym[qAcct], handOver.Describe(func(i int) string { return b.sym[i] })), nil
 		}
 	}
 	return "", "", nil
